@@ -963,7 +963,6 @@ class DestHandler:
             start,
             end,
         ) in self._params.acked_params.lost_seg_tracker.lost_segments.items():
-            next_segment_reqs.append((start, end))
             if len(next_segment_reqs) == max_segments_in_one_pdu:
                 self._add_packet_to_be_sent(
                     NakPdu(
@@ -974,6 +973,7 @@ class DestHandler:
                     )
                 )
                 next_segment_reqs = []
+            next_segment_reqs.append((start, end))
         if len(next_segment_reqs) > 0:
             self._add_packet_to_be_sent(
                 NakPdu(
